@@ -1040,3 +1040,10 @@ def check_never_matches(rule_prog, spec_dfa, atoms, right_ok=ALL, allow_end=True
         if len(viol) > 3:
             break
     return viol, n
+
+
+
+def canon_pattern(p):
+    """identity of a table row for finding keys: the pattern with non-capturing groups written as plain groups, so that a
+    rewrite that changes nothing but `(` <-> `(?:` keeps the key of a listed finding"""
+    return p.replace('(?:', '(') if isinstance(p, str) else p
